@@ -162,6 +162,28 @@ NEEDS = {
            'same-tag siblings that are not adjacent (a b a): the path of the first a selects all of them'),
  'C19-6': ('schemas.py _validate_references: the IDREF error is created with the dangling VALUE as object',
            'a dangling IDREF: the error lands on the last element validated, an unrelated node'),
+ 'C01-5': ('wildcards.py Xsd11AnyElement.is_matching: the priority test against competing elements compares names instead of calling is_matching',
+           'XSD 1.1, a wildcard overlapping an element particle whose substitution-group MEMBER is used in the instance - inside the excluded class C01-KF-11-precedence'),
+ 'C07-5': ('complex_types.py XsdComplexType.block: an explicit empty block="" no longer overrides blockDefault',
+           'schema blockDefault, a type with block="", an element that does not block either, xsi:type derived that way'),
+ 'C07-6': ('elements.py Xsd11Element.get_alternative_type: inherited attributes overlay the element\'s own',
+           'XSD 1.1 inheritable attribute on an ancestor, the element carrying its own same-named attribute with another value'),
+ 'C13-5': ('xml_resource.py is_defused: an explicit base_url wins over the URL of the resource',
+           'a remote URL loaded with an explicit local base_url under defuse="remote" / "nonlocal"'),
+ 'C13-6': ('sax.py defuse_xml swallows the ValueError / LookupError of encodings the scanner cannot read',
+           'Shift_JIS / EUC-JP / Big5 / GB2312 byte sources with an entity declaration, parsed with lxml iterparse'),
+ 'C15-5': ('xsd_globals.py check(): content models checked only for global types and elements',
+           'a UPA / EDC violation inside the anonymous type of a local element declared in a NAMED group'),
+ 'C16-5': ('wildcards.py union(): early return for equal namespace constraints before the notQName merge',
+           'XSD 1.1 union of wildcards with identical namespace constraints and different notQName'),
+ 'C16-6': ('attributes.py: the wildcard of a referenced group is copied before the union with the base but the copy is not stored',
+           'an extension of a base with anyAttribute whose only wildcard comes from an attributeGroup reference'),
+ 'C17-5': ('namespaces.py set_xmlns_context: stale reverse entries repaired only for the non-empty prefixes the element declares',
+           'a URI bound to the default namespace and to a prefix, the default rebound or unset in a nested scope'),
+ 'C18-4': ('elements.py: the scratch element for inherited attributes became one class-level object',
+           'XSD 1.1 alternatives testing an inherited attribute, two threads validating documents with different inherited values'),
+ 'C18-5': ('xsd_globals.py build(): check(schemas) moved after _built = True',
+           'a lax-built schema that is invalid only for the end-of-build checks, a second thread arriving during check()'),
 }
 
 
